@@ -105,9 +105,15 @@ pub fn run(ctx: &mut Ctx) {
             for d in deps {
                 if ctx.rng.chance(1, 4) {
                     blanks(&mut ctx.rng, &mut text, 1);
-                    text.extend_from_slice(b"\\\n");
-                    blanks(&mut ctx.rng, &mut text, 0);
+                    // one or several consecutive continuations (an empty element of a joined list
+                    // leaves a line holding only blanks and the next backslash)
+                    let reps = if ctx.rng.chance(1, 3) { ctx.rng.range(2, 4) } else { 1 };
+                    for _ in 0..reps {
+                        text.extend_from_slice(b"\\\n");
+                        blanks(&mut ctx.rng, &mut text, 0);
+                    }
                     ctx.count("continuation");
+                    if reps > 1 { ctx.count("multi_continuation"); }
                 } else {
                     blanks(&mut ctx.rng, &mut text, 1);
                 }
